@@ -108,3 +108,18 @@ Example interruptible_nonvacuous :
   let s := rrun true rinit [RDown; RWrite 0; RWrite 1; RTickBegin; RRestart; RUp; RTickBegin; RTickEnd] in
   has (base s) 0 = 1 /\ has (base s) 1 = 1 /\ retry (base s) = [] /\ flag s = false.
 Proof. vm_compute. auto. Qed.
+
+(* A failed push whose bookkeeping is abandoned (the pinned handler gave up when its transaction conflicted with the
+   mark written by the retry loop): the document is neither delivered nor recorded, the invariant is lost and no
+   later retry round can deliver it. The repaired handler records the failure again, which is the Write step. *)
+Definition write_unrecorded (s : st) (d : nat) : st :=
+  {| head := upd (head s) d (S (head s d)); has := has s; up := up s; active := active s;
+     retry_rec := retry_rec s; retry := retry s |}.
+Example unrecorded_failure_refuted :
+  let s := write_unrecorded (run init [Down; Write 0]) 1 in
+  ~ Inv s /\ has (step (step s Up) Tick) 1 <> head (step (step s Up) Tick) 1.
+Proof.
+  cbv zeta. split.
+  - intros [H _]. destruct (H 1) as [E|[E _]]; vm_compute in E; discriminate.
+  - vm_compute. discriminate.
+Qed.
